@@ -482,19 +482,44 @@ Theorem C14_ge_table_write_isolated : forall (h : heap) (n : nat) (taxa : option
 Proof. exact ge_column_isolated. Qed.
 Print Assumptions C14_ge_table_write_isolated.
 
-(** ... the same holds for TruePhenotyping.phenotype when the labels are generated (guard: the population has no taxa array) ... *)
-Theorem C14_true_table_write_isolated_partial : forall (h : heap) (n i : nat) (v : str) (l : nat), (l < length h)%nat ->
-  let '(h', c) := tp_taxa_column h n None in hread (hwrite h' c i v) l = hread h l.
-Proof. exact tp_column_isolated_generated. Qed.
-Print Assumptions C14_true_table_write_isolated_partial.
+(** ... and the same holds for TruePhenotyping.phenotype at full strength, for explicit and for generated labels (since the
+    repair of C14-truepheno-table-shares-labels the taxa column is `numpy.array(gvmat.taxa)`, a copy; formerly this was only
+    proved under the guard that the population has no taxa array) ... *)
+Theorem C14_true_table_write_isolated : forall (h : heap) (n : nat) (taxa : option nat) (i : nat) (v : str) (l : nat), (l < length h)%nat ->
+  let '(h', c) := tp_taxa_column h n taxa in hread (hwrite h' c i v) l = hread h l.
+Proof. exact tp_column_isolated. Qed.
+Print Assumptions C14_true_table_write_isolated.
 
-(** ... but with explicit labels the column of the TruePhenotyping table IS the population's array (known finding
-    C14-truepheno-table-shares-labels): a write into the table changes the labels of the population. *)
-Theorem C14_true_table_write_isolated_refuted :
-  exists (h : heap) (l i : nat) (v : str), (l < length h)%nat /\
-    let '(h', c) := tp_taxa_column h 2 (Some l) in hread (hwrite h' c i v) l <> hread h l.
-Proof. exact tp_column_aliases. Qed.
-Print Assumptions C14_true_table_write_isolated_refuted.
+(** ... while the column still carries the population's labels (the copy is faithful), resp. the generated ones ... *)
+Theorem C14_true_table_column_content : forall (h : heap) (n : nat) (taxa : option nat),
+  let '(h', c) := tp_taxa_column h n taxa in
+  hread h' c = match taxa with Some l => hread h l | None => auto_labels "Taxon"%string n end.
+Proof. exact tp_column_content. Qed.
+Print Assumptions C14_true_table_column_content.
+
+(** ... so the observable of the harness' aliasing probe (overwrite the table, compare the population with its snapshot) is
+    constantly true ... *)
+Theorem C14_true_table_probe_isolated : forall (n : nat) (taxa : option (list str)), tp_table_isolated n taxa = true.
+Proof. exact tp_table_isolated_true. Qed.
+Print Assumptions C14_true_table_probe_isolated.
+
+(** ... and the statement holds of the column as the REGENERATED kernel expressions build it (Gen/C14_Kernel.v: [k_tp_taxa_copied]
+    says whether the source copies the explicit labels; a source that hands over `gvmat.taxa` itself makes Proofs/C14_Kernel.v stop
+    compiling). *)
+Theorem C14_kernel_true_table_write_isolated : forall (h : heap) (n : nat) (taxa : option nat) (i : nat) (v : str) (l : nat), (l < length h)%nat ->
+  let '(h', c) := k_tp_taxa_column h n taxa in hread (hwrite h' c i v) l = hread h l.
+Proof. exact k_tp_column_isolated. Qed.
+Print Assumptions C14_kernel_true_table_write_isolated.
+
+(** Regression witness about the FORMER code ([old_tp_taxa_column]: explicit labels handed to pandas as they are; finding
+    C14-truepheno-table-shares-labels, repaired): the column WAS the population's array, a write into the table changed the
+    labels of the population, and the probe observable was false. *)
+Theorem C14_old_true_table_write_isolated_refuted :
+  (exists (h : heap) (l i : nat) (v : str), (l < length h)%nat /\
+    let '(h', c) := old_tp_taxa_column h 2 (Some l) in hread (hwrite h' c i v) l <> hread h l) /\
+  old_tp_table_isolated 2 (Some ["b"; "a"]%string) = false.
+Proof. exact (conj old_tp_column_aliases old_tp_table_shared). Qed.
+Print Assumptions C14_old_true_table_write_isolated_refuted.
 
 (** non-vacuity of the kernel and aliasing statements: a non-empty store and a valid location; an integer nrep stored for two
     environments; a target in (0,1] with a positive variance *)
